@@ -10,7 +10,7 @@ PER_FILE = 400
 CASE_TIMEOUT = 5
 RULE = ('trees = nests of dict / Dict / dictattr over string keys (plain, starting with an underscore (_x, _, __init__, _id, _pk), holding % / space / slash, some containing dots, incl. the colliding {v1.0: .., v1: {0: ..}}; paths are always tuples / lists) with leaves None / ints / strings / lists, depth <= 4. flat cases: tree_items, '
         'tree_keys, tree_values, tree_getitem on every listed path, items_to_tree(tree_items(t)). update cases: tree_update(t, u, ignore) or '
-        'Dict + dict with canonical deep snapshots (class, key order, leaves of every branch) of BOTH operands taken before and after the call; '
+        'Dict + dict (about a third with a dict OBJECT shared between 2-3 paths of t, of u, or between t and u) with canonical deep snapshots (class, key order, leaves of every branch) of BOTH operands taken before and after the call; '
         'EVERY pair of the 36 dict-rooted trees over keys {a,b} of depth <= 2 (empty branches included), random pairs where u is derived from t '
         '(changed leaves, leaf-vs-branch conflicts both ways, new keys, deep overlaps), u is t itself, u = {}, ignore lists. table cases: '
         'patterns of 2..6 segments with 1..4 %wildcards, rows with unique paths -> table_to_tree (from None or onto an existing tree) -> '
@@ -27,7 +27,7 @@ EXPLANATION = ('theorems C15_* (coq/props/C15.v) hold for every tree of the indu
 TRUSTED = ['modelled, not verified: Python dict insertion order / in-place assignment (association lists, M_tree.kset), copy() of a dict (a new object sharing the values), '
            'the harness builder that turns the JSON description into Python objects and Coq literals']
 ASSUMPTIONS = ['keys are ASCII strings (dots and the empty key allowed when the path is a tuple / list; dotted-string paths only for dot-free non-empty keys)', 'branches are exactly dict, Dict or dictattr objects; leaves are None, ints, strings or lists of those',
-               'the operands hold no object twice (trees, not DAGs)', 'wildcard names in a pattern are distinct; wildcard values used as keys are strings']
+               'a dict object may hang under several paths of an operand, or in both operands (finite DAGs; built for flat / update / table-onto cases); the model treats the occurrences as equal-valued distinct branches, which is exact because tree_update never writes into an operand; in-place tree_setitem cases use proper trees', 'wildcard names in a pattern are distinct; wildcard values used as keys are strings']
 EXHAUSTIVE = {'quick': False, 'thorough': False}
 
 CLS = {'dict': 0, 'Dict': 1, 'dictattr': 2}
@@ -85,13 +85,37 @@ def impl_setup():
     from pyg_base._table_to_tree import table_to_tree
     TYPES = {'dict': dict, 'Dict': Dict, 'dictattr': dictattr}
 
-def build(s):
+def build(s, memo=None):
+    """the Python object; a branch description carrying a share id (4th element) is built ONCE per memo and the same dict object is
+    hung under every path that names it (DAG-shaped trees: {'dev': defaults, 'prod': defaults})"""
     if not is_node(s):
         return copy.deepcopy(s[1])
+    sid = s[3] if len(s) > 3 else None
+    if sid is not None and memo is not None and sid in memo:
+        return memo[sid]
     d = TYPES[s[1]]()
+    if sid is not None and memo is not None:
+        memo[sid] = d
     for k, v in s[2]:
-        d[k] = build(v)
+        d[k] = build(v, memo)
     return d
+
+def shared_groups(s, obj, acc=None):
+    """{share id: [objects found under the paths that name it]}"""
+    acc = {} if acc is None else acc
+    if is_node(s) and isinstance(obj, dict):
+        if len(s) > 3:
+            acc.setdefault(s[3], []).append(obj)
+        for k, v in s[2]:
+            if k in obj:
+                shared_groups(v, obj[k], acc)
+    return acc
+
+def sharing_broken(s, obj):
+    for sid, objs in shared_groups(s, obj).items():
+        if any(o is not objs[0] for o in objs):
+            return sid
+    return None
 
 def canon_leaf(v):
     if v is None: return None
@@ -164,7 +188,7 @@ def err(e):
 def impl(case):
     k = case['kind']
     if k == 'flat':
-        s = case['t']; t = build(s)
+        s = case['t']; t = build(s, {})
         try:
             items = tree_items(t); keys = tree_keys(t); values = tree_values(t)
             got = []
@@ -191,7 +215,8 @@ def impl(case):
     if k == 'update':
         st, su = case['t'], (case['t'] if case.get('same') else case['u'])
         ign = case.get('ignore', [])
-        t = build(st); u = t if case.get('same') else build(su)
+        memo = {}
+        t = build(st, memo); u = t if case.get('same') else build(su, memo)       # one memo: a branch may be the same object in t and in u
         before_t, before_u = canon_tree(t), canon_tree(u)
         call = ('%s + %s' % (show(st), show(su))) if case.get('via') == 'add' else 'tree_update(%s, %s%s)' % (show(st), show(su), (', ignore=%r' % ign) if ign else '')
         try:
@@ -205,6 +230,8 @@ def impl(case):
         viol = None
         if after_t != before_t:
             viol = '%s modified its left operand: it is now %s' % (call, after_t)
+        elif sharing_broken(st, t) is not None or sharing_broken(su, u) is not None:
+            viol = '%s: a dict object shared between two paths of an operand is no longer the same object there' % call
         elif after_u != before_u:
             viol = '%s modified its right operand: it is now %s' % (call, after_u)
         elif is_node(st) and is_node(su):
@@ -235,7 +262,7 @@ def impl(case):
     if k == 'table':
         pat = case['pattern']; pattern = '/'.join(pat)
         rows = [dict(r) for r in case['rows']]
-        t0 = None if case.get('t0') is None else build(case['t0'])
+        t0 = None if case.get('t0') is None else build(case['t0'], {})
         before = None if t0 is None else canon_tree(t0)
         try:
             ras = case.get('rows_as', 'list')
@@ -437,8 +464,45 @@ def big_cases():
             {'kind': 'update', 't': wide, 'u': wide, 'same': True}, {'kind': 'setitem', 't': deep, 'path': ['d11', 'd10', 'd9', 's', 'new'], 'value': 5, 'spell': 'str'},
             {'kind': 'table', 'pattern': ['big', '%a', '%b', '%v'], 'rows': rows}, {'kind': 'table', 'pattern': ['big', '%a', '%b', '%v'], 'rows': rows[:40], 'rows_as': 'dictable'}]
 
+def all_nodes(s, path=()):
+    out = []
+    if is_node(s):
+        out.append((path, s))
+        for k, v in s[2]:
+            out += all_nodes(v, path + (k,))
+    return out
+
+def share(rng, t, sid):
+    """t with one of its branches (or a new one) hung, as the SAME dict object, under 2-3 paths at possibly different depths"""
+    t = copy.deepcopy(t)
+    nodes = [n for p, n in all_nodes(t) if p]
+    if nodes and rng.random() < 0.7:
+        b = rng.choice(nodes)
+    else:
+        b = rand_root(rng, rng.choice([1, 2]), None, 0)
+    if len(b) > 3: return t
+    b.append(sid)
+    for _ in range(rng.choice([1, 1, 2])):
+        hosts = [n for p, n in all_nodes(t) if n is not b and not any(m is n for _, m in all_nodes(b))]
+        host = rng.choice(hosts)
+        free = [k for k in KEYS if lookup(host[2], k) is None]
+        if not free: continue
+        host[2].append([rng.choice(free), b])       # the same description object: same share id, same kids
+    return json.loads(json.dumps(t))
+
+def shared_seeds():
+    d = ['N', 'dict', [['host', Lf('h')], ['port', Lf(1)]], 's1']
+    t = Nd([('dev', d), ('prod', d), ('other', Nd([('deep', Nd([('again', d)]))]))])
+    e = ['N', 'Dict', [['x', Nd([('y', Lf(1))])]], 's2']
+    t2 = ['N', 'Dict', [['a', e], ['b', ['N', 'Dict', [['c', e]]]]]]
+    u = Nd([('dev', Nd([('port', Lf(2))])), ('new', d)])
+    return json.loads(json.dumps([{'kind': 'flat', 't': t}, {'kind': 'flat', 't': t2}, {'kind': 'update', 't': t, 'u': u}, {'kind': 'update', 't': t, 'u': t, 'same': True},
+                                  {'kind': 'update', 't': Nd([('k', Lf(0))]), 'u': t}, {'kind': 'update', 't': t2, 'u': Nd([('b', Nd([('c', Nd([('x', Lf(5))]))]))]), 'via': 'add'},
+                                  {'kind': 'update', 't': t, 'u': Nd([('q', d), ('dev', d)])},
+                                  {'kind': 'table', 'pattern': ['%e', 'host', '%h'], 'rows': [[['e', 'dev'], ['h', 'zz']]], 't0': t}]))
+
 def gen_cases(rng, tier):
-    cases = dotted_seeds() + big_cases()
+    cases = dotted_seeds() + big_cases() + shared_seeds()
     for v in (5, None, 'x', [1, 2]):
         cases.append({'kind': 'flat', 't': Lf(v)})
     T2 = [t for t in small_trees(2, 1) if is_node(t)]
@@ -449,7 +513,8 @@ def gen_cases(rng, tier):
             cases.append({'kind': 'update', 't': t, 'u': u})
     n = 400 if tier == 'quick' else 6000
     for _ in range(n):
-        cases.append({'kind': 'flat', 't': rand_root(rng, rng.choice([1, 2, 3, 4]), None, rng.choice([0, 0, 0.1]))})
+        t = rand_root(rng, rng.choice([1, 2, 3, 4]), None, rng.choice([0, 0, 0.1]))
+        cases.append({'kind': 'flat', 't': share(rng, t, 'f') if rng.random() < 0.2 else t})
     for _ in range(2 * n):
         via = 'add' if rng.random() < 0.25 else 'tree_update'
         t = rand_root(rng, rng.choice([1, 2, 3, 4]), 'Dict' if via == 'add' else None, rng.choice([0, 0, 0.1]))
@@ -460,6 +525,13 @@ def gen_cases(rng, tier):
         elif r < 0.8: c['u'] = derive(rng, t, 4)
         elif r < 0.97: c['u'] = rand_root(rng, rng.choice([1, 2, 3]), None, rng.choice([0, 0, 0.1]))
         else: c['u'] = Lf(rand_leaf(rng)); c['via'] = 'tree_update'
+        r2 = rng.random()
+        if r2 < 0.1: c['t'] = share(rng, c['t'], 'st')
+        elif r2 < 0.25 and is_node(c['u']) and not c.get('same'): c['u'] = share(rng, c['u'], 'su')
+        elif r2 < 0.32 and is_node(c['u']) and not c.get('same'):      # the same branch object in t and in u
+            b = rand_root(rng, rng.choice([1, 2]), None, 0) + ['tu']
+            c['t'] = json.loads(json.dumps(['N', c['t'][1], c['t'][2] + [['shared', b]]])); c['u'] = json.loads(json.dumps(['N', c['u'][1], c['u'][2] + [[rng.choice(['shared', 'sh2']), b]]]))
+        if c.get('same'): c['u'] = c['t']
         if c['via'] == 'tree_update' and rng.random() < 0.2:
             c['ignore'] = rng.choice([[None], [None, 0], ['x'], [1], [[1, 2]]])
             c['ignore_scalar'] = rng.random() < 0.4
